@@ -32,7 +32,7 @@ TIMEOUT_STOPS_GOROUTINE = False
 CFG_KEYS = ['map', 'cproto', 'sgen', 'tr', 'fside', 'fstep', 'fkind']
 TIMEOUT_MS = 1500
 LATE_TIMEOUT_MS = 300
-SLACK_MS = 600           # creation of the mappings happens inside newSession as well
+SLACK_MS = 600           # (or 30 % of the timeout) creation of the mappings happens inside newSession as well
 WIRE_NAMES = {'EXCH': 'ExchangeProtoVersion', 'PATH': 'ShareMemoryByFilePath', 'MEMFD': 'ShareMemoryByMemfd',
               'ACKRDY': 'AckReadyRecvFD', 'ACK': 'AckShareMemory', 'FDS': 'FDS'}
 
@@ -255,7 +255,7 @@ def evaluate(ck, sc, o, sts, known, stats):
     # --- O4 failure: bounded and clean
     for x, e in (('client', c), ('server', s)):
         if e['real'] and e['res'] == 'err':
-            if e['ms'] > sc['timeout_ms'] + SLACK_MS:
+            if e['ms'] > sc['timeout_ms'] + max(SLACK_MS, 0.3 * sc['timeout_ms']):
                 res.append(('violation', name + ': %s failed only after %d ms (initialization timeout %d ms)'
                             % (x, e['ms'], sc['timeout_ms'])))
             stats['failure_paths'] += 1
@@ -302,8 +302,9 @@ def run_scenarios(scs, workers, timeout):
 
 def model_check(strict):
     return tlc.dump_graph('Handshake', 'mc.cfg', timeout=600, workers=4,
-                          extra_files={'mc.cfg': CFG_TMPL % dict(strict='TRUE' if strict else 'FALSE', refuse='TRUE' if REFUSE_MEMFD_DOWNGRADE else 'FALSE',
-                                                               stops='TRUE' if TIMEOUT_STOPS_GOROUTINE else 'FALSE')})
+                          extra_files={'mc.cfg': CFG_TMPL % dict(
+                              strict='TRUE' if strict else 'FALSE', refuse='TRUE' if REFUSE_MEMFD_DOWNGRADE else 'FALSE',
+                              stops='TRUE' if TIMEOUT_STOPS_GOROUTINE else 'FALSE')})
 
 
 def run(prop, tier, seed, replay=None):
@@ -342,16 +343,20 @@ def run(prop, tier, seed, replay=None):
                              % (len(inits), res.distinct, len(edges), res.depth, res.wall, INVARIANTS)]
     ck.cov['scenarios_in_spec'] = len(terms)
     ck.cov['terminal_states'] = sum(len(v) for v in terms.values())
-    # the same design without the exemption: TLC's counterexample is the lead the known classes come from
-    sres = tlc.run('Handshake', 'mc.cfg', timeout=300, workers=2, extra_files={'mc.cfg': CFG_TMPL % dict(strict='TRUE', refuse='TRUE' if REFUSE_MEMFD_DOWNGRADE else 'FALSE',
-                                                               stops='TRUE' if TIMEOUT_STOPS_GOROUTINE else 'FALSE')})
-    if sres.violation:
-        lead = sres.trace[0][1].get('cfg') if sres.trace else None
-        ck.cov['strict_design_check'] = 'without the exemption TLC reports %s violated, e.g. scenario %s ' \
-                                        '(replayed on the real code below)' % (sres.violation, lead)
-    elif sres.ok:
-        ck.cov['strict_design_check'] = 'holds without exemption'
-        ck.add('states', sres.distinct)
+    if ck.tier == 'thorough' and not replay:
+        # the same design without the exemption: TLC's counterexample is the lead the known classes come from
+        sres = tlc.run('Handshake', 'mc.cfg', timeout=300, workers=2, extra_files={'mc.cfg': CFG_TMPL % dict(
+            strict='TRUE', refuse='TRUE' if REFUSE_MEMFD_DOWNGRADE else 'FALSE',
+            stops='TRUE' if TIMEOUT_STOPS_GOROUTINE else 'FALSE')})
+        if sres.violation:
+            lead = sres.trace[0][1].get('cfg') if sres.trace else None
+            ck.cov['strict_design_check'] = 'without the exemption TLC reports %s violated, e.g. scenario %s ' \
+                                            '(replayed on the real code below)' % (sres.violation, lead)
+        elif sres.ok:
+            ck.cov['strict_design_check'] = 'holds without exemption'
+            ck.add('states', sres.distinct)
+    else:
+        ck.cov['strict_design_check'] = 'thorough tier only'
 
     if replay:
         return do_replay(ck, replay, terms, known)
